@@ -412,6 +412,17 @@ def run_item(ctx, item):
         p, m_ = gen_score.make_part(rng, f"P{i + 1}", features=f2, divs=rng.choice(cands), skeleton=meta0["skeleton"], band_base=5 * i)
         parts.append(p)
         metas.append(m_)
+    # one voice of a part has no voice number (notes entered without one), next to numbered voices
+    if rng.random() < 0.2:
+        p_ = parts[rng.randrange(len(parts))]
+        objs_ = timemaps.objects_of(p_, S.GenericNote, exact=False)
+        vs_ = sorted({o.voice for o in objs_ if isinstance(o.voice, int)})
+        if len(vs_) >= 2:
+            v_ = rng.choice(vs_)
+            for o in objs_:
+                if o.voice == v_:
+                    o.voice = None
+            ctx.extra["parts_with_a_voice_without_number"] += 1
     # a key released in one voice and struck again at once in another voice of the part (the notes touch, they do not overlap):
     # in the modes that put the voices of a part on one channel the file still has to denote two notes
     for p in parts:
